@@ -22,3 +22,5 @@ for (g, u), names in sorted(extract.BINDERS_SEEN.items(), key=lambda kv: (str(kv
         binders.setdefault(g, {})[u] = names
 json.dump(binders, open(os.path.join(V, 'contracts', 'binders.json'), 'w'), indent=1)
 print('binders of', sum(len(v) for v in binders.values()), 'units written')
+json.dump(runner.trusted_fn_hashes(), open(os.path.join(V, 'contracts', 'trusted_repo_hashes.json'), 'w'), indent=1)
+print('hashes of trusted in-repo functions written')
